@@ -70,6 +70,7 @@ ENV_MODEL = [
     "memory model: sequentially consistent interleavings plus happens-before tracking with vector clocks (release store/RMW publishes, acquire load/RMW joins, relaxed RMW continues a release sequence, relaxed store breaks it); non-SC outcomes of relaxed atomics are not explored",
     "spin loops: the literal iteration count is replaced by a symbolic budget in {0,1} (stutter equivalence: the loop body is one relaxed load without side effect)",
     "trusted builtins: atomic intrinsics, spin-loop hint, rusl::Error::with_code",
+    "VERIF_SEED is recorded but has no influence: every verdict is a solver result over all schedules within the stated bounds, nothing is sampled",
 ]
 
 
